@@ -8,6 +8,7 @@ pub mod c05;
 pub mod c06;
 pub mod c07;
 pub mod c08;
+pub mod c09;
 pub mod c10;
 pub mod c11;
 pub mod c12;
@@ -30,6 +31,7 @@ pub fn lookup(id: &str) -> Option<Box<dyn Property + Send>> {
         "C06" => Some(Box::new(c06::C06)),
         "C07" => Some(Box::new(c07::C07)),
         "C08" => Some(Box::new(c08::C08)),
+        "C09" => Some(Box::new(c09::C09)),
         "C10" => Some(Box::new(c10::C10)),
         "C11" => Some(Box::new(c11::C11)),
         "C12" => Some(Box::new(c12::C12)),
